@@ -111,6 +111,7 @@ func psOracle(all []uint16, signers []uint16, t int, msgLen int, shares map[uint
 		}
 		tps[id] = s
 	}
+	reqBuf := make([]byte, 0, 16384)
 	for mi, msg := range genMessages(r, msgLen, nMsgs) {
 		var prover ps.Prover
 		if err := prover.Init(PSCurve, msgLen, tpk0, all); err != nil {
@@ -118,8 +119,9 @@ func psOracle(all []uint16, signers []uint16, t int, msgLen int, shares map[uint
 		}
 		blind, secret := prover.Blind(msg)
 		wit := map[uint16]ps.SignatureWitness{}
+		reqBuf = append(reqBuf[:0], blind.Bytes()...) // one request buffer, overwritten for every message
 		for _, id := range signers {
-			sig, err := tps[id].Sign(nil, blind.Bytes())
+			sig, err := tps[id].Sign(nil, reqBuf)
 			if err != nil {
 				return fmt.Sprintf("message #%d: party %d refuses a well-formed blinded request: %v", mi, id, err), subsetsChecked
 			}
